@@ -84,4 +84,17 @@ def main(argv):
 
 
 if __name__ == '__main__':
-    sys.exit(main(sys.argv[1:]))
+    try:
+        code = main(sys.argv[1:])
+    except SystemExit:
+        raise
+    except KeyboardInterrupt:
+        print("HARNESS-ERROR interrupted")
+        code = core.EXIT_HARNESS
+    except BaseException as e:      # pylint: disable=broad-except
+        # an exception of the harness itself must never look like a verdict (exit 1)
+        import traceback
+        traceback.print_exc()
+        print("HARNESS-ERROR unexpected %s: %s" % (type(e).__name__, str(e)[:500]))
+        code = core.EXIT_HARNESS
+    sys.exit(code)
